@@ -537,6 +537,17 @@ Proof.
       with (shm (mkMesh (topo m) (idx m) (mats m) c1 c2 c3 c4)).
     destruct (multi_loop_ins (mkMesh (topo m) (idx m) (mats m) c1 c2 c3 c4) parts h4 Ln2) as [Q _]. rewrite Q.
     destruct (multi_loop grow h4 _ parts) as [[h5 rs]|]; reflexivity.
+  - (* OBuild *)
+    destruct (new_slice H ix 0) as [h1 s] eqn:E1. use (new_slice_ins _ _ _ _ _ E1 L).
+    destruct (new_slice h1 ms 0) as [h2 sm] eqn:E2. use (new_slice_ins _ _ _ _ _ E2 Ln).
+    destruct (alloc_map h2 c4) as [h3 a4] eqn:E3. use (alloc_map_ins _ _ _ _ E3 Ln0).
+    destruct (alloc_map h3 c3) as [h4 a3] eqn:E4. use (alloc_map_ins _ _ _ _ E4 Ln1).
+    destruct (alloc_map h4 c2) as [h5 a2] eqn:E5. use (alloc_map_ins _ _ _ _ E5 Ln2).
+    destruct (alloc_map h5 c1) as [h6 a1] eqn:E6. use (alloc_map_ins _ _ _ _ E6 Ln3).
+    reflexivity.
+  - (* OShareMats *)
+    getm p i m Gi. rewrite (nth_error_shm p j). destruct (nth_error p j) as [src|] eqn:Gj; cbn [option_map]; [|reflexivity].
+    reflexivity.
 Qed.
 
 End G.
@@ -548,7 +559,7 @@ Variable grow : nat -> nat -> nat.
 
 (* every pool index the operation mentions is below n (and its receiver exists) *)
 Definition refs_below (n : nat) (o : op) : Prop :=
-  operand o < n /\ match o with OAppend _ j | OCopyAttr _ _ j _ => j < n | _ => True end.
+  operand o < n /\ match o with OAppend _ j | OCopyAttr _ _ j _ | OShareMats _ j => j < n | _ => True end.
 
 (* what an operation adds to a state: the error class and the observations of the members it creates *)
 Definition added (st : state) (o : op) : status * list obs :=
